@@ -8,8 +8,8 @@ ops:
   ntp.ts  s0 n0 … s3 n3               -> ok | err response | panic explicit:unexpected_system_clock_behavior
   ntp.meta <lvm> <stratum>            -> ok <bool>
   cli.req  tr= il= ref= prev= now=    -> ok basic|il <lvm> <org> <rx> <tx>
-  cli.exch tr=ip    il= dl= filt= server= ref= prev= now= ctx1= ev=…
-  cli.exch tr=scion il= dl= filt= key= ria= rhost= lia= lhost= ref= prev= now= ctx1= ev=…
+  cli.exch tr=ip    il= nts= dl= filt= server= ref= prev= now= ctx1= ev=…
+  cli.exch tr=scion il= nts= dl= filt= key= ria= rhost= lia= lhost= ref= prev= now= ctx1= ev=…
                                       -> ok accept il=<b> off=<n> ts=<n> [tuple=…] prev=… | err <kind> prev=… | panic …
   cli.wrap il= att=ok:<tag>:<inIL>,err:<kind>,…   -> ok <tag> | err <kind>
   cli.badlocal tr= iplen=             -> err addr
@@ -70,22 +70,24 @@ def times4? (l : List String) : Option (Int × Int × Int × Int) :=
     else none
   | _ => none
 
-/-- payload facts `len:lvm:stratum:org:rx:tx` (+ NTS verdicts default true: NTS off on the live socket) -/
+/-- payload facts `len:lvm:stratum:org:rx:tx` and the NTS verdicts `decodeOk:uidEq:openOk`
+    (computed by the harness with the real libraries) -/
 def parsePayload? (l : List String) : Option Payload :=
   match l with
-  | [len, lvm, st, org, rx, tx] =>
-    match len.toNat?, lvm.toNat?, st.toNat?, parseT64? org, parseT64? rx, parseT64? tx with
-    | some len, some lvm, some st, some org, some rx, some tx =>
-      if lvm < 256 ∧ st < 256 then some ⟨len, ⟨lvm, st, org, rx, tx⟩, true, true, true⟩ else none
-    | _, _, _, _, _, _ => none
+  | [len, lvm, st, org, rx, tx, dec, uid, opn] =>
+    match len.toNat?, lvm.toNat?, st.toNat?, parseT64? org, parseT64? rx, parseT64? tx,
+          parseBool? dec, parseBool? uid, parseBool? opn with
+    | some len, some lvm, some st, some org, some rx, some tx, some dec, some uid, some opn =>
+      if lvm < 256 ∧ st < 256 then some ⟨len, ⟨lvm, st, org, rx, tx⟩, dec, uid, opn⟩ else none
+    | _, _, _, _, _, _, _, _, _ => none
   | _ => none
 
 def parseEvIP? (s : String) : Option (Event IpDgram) :=
   match s.splitOn ":" with
   | ["e", b] => (parseBool? b).map .readErr
   | ["f", b] => (parseBool? b).map .badFlags
-  | ["d", src, len, lvm, st, org, rx, tx, cRx, b] =>
-    match src.toNat?, parsePayload? [len, lvm, st, org, rx, tx], parseInt? cRx, parseBool? b with
+  | ["d", src, len, lvm, st, org, rx, tx, cRx, b, dec, uid, opn] =>
+    match src.toNat?, parsePayload? [len, lvm, st, org, rx, tx, dec, uid, opn], parseInt? cRx, parseBool? b with
     | some src, some p, some cRx, some b => some (.dgram ⟨src, p⟩ cRx b)
     | _, _, _, _ => none
   | _ => none
@@ -115,11 +117,11 @@ def parseEvSCION? (s : String) : Option (Event ScionDgram) :=
   match s.splitOn ":" with
   | ["e", b] => (parseBool? b).map .readErr
   | ["f", b] => (parseBool? b).map .badFlags
-  | ["s", ok, layers, bl, ul, sia, sh, dia, dh, ts, au, len, lvm, st, org, rx, tx, cRx, b] =>
+  | ["s", ok, layers, bl, ul, sia, sh, dia, dh, ts, au, len, lvm, st, org, rx, tx, cRx, b, dec, uid, opn] =>
     match parseBool? ok, (if layers = "-" then some [] else parseLayers? layers), bl.toNat?, ul.toNat?,
           sia.toNat?, sh.toNat?, dia.toNat?, dh.toNat? with
     | some ok, some layers, some bl, some ul, some sia, some sh, some dia, some dh =>
-      match parseOptInt? ts, parseAuthOpt? au, parsePayload? [len, lvm, st, org, rx, tx], parseInt? cRx, parseBool? b with
+      match parseOptInt? ts, parseAuthOpt? au, parsePayload? [len, lvm, st, org, rx, tx, dec, uid, opn], parseInt? cRx, parseBool? b with
       | some ts, some au, some p, some cRx, some b =>
         some (.dgram ⟨ok, layers, bl, ul, sia, sh, dia, dh, ts, au, p⟩ cRx b)
       | _, _, _, _, _ => none
@@ -188,30 +190,30 @@ def step (_ : Unit) (toks : List String) : Unit × String := Id.run do
       | _, _, _, _, _ => return ((), "bad-op")
     | _ => return ((), "bad-op")
   | "cli.exch" :: rest =>
-    match kvs rest ["tr", "il", "dl", "filt", "ref", "prev", "now", "ctx1", "ev"] with
-    | some [tr, il, dl, filt, ref, prev, now, ctx1, ev] =>
+    match kvs rest ["tr", "il", "dl", "filt", "ref", "prev", "now", "ctx1", "ev", "nts"] with
+    | some [tr, il, dl, filt, ref, prev, now, ctx1, ev, nts] =>
       match parseTr? tr, parseBool? il, parseBool? dl, parseOptInt? filt, refName ref, parsePrev? prev,
-            parseInt? now, parseInt? ctx1 with
-      | some tr, some il, some dl, some filt, some ref, some prev, some now, some ctx1 =>
+            parseInt? now, parseInt? ctx1, parseBool? nts with
+      | some tr, some il, some dl, some filt, some ref, some prev, some now, some ctx1, some nts =>
         if ref = "" then return ((), "bad-op")
-        let cfg : Cfg := ⟨tr, il, false, dl⟩
+        let cfg : Cfg := ⟨tr, il, nts, dl⟩
         match tr with
         | .ip =>
-          if rest.length ≠ 10 then return ((), "bad-op")
+          if rest.length ≠ 11 then return ((), "bad-op")
           match (kv? rest "server").bind (·.toNat?), parseEvs? parseEvIP? ev with
           | some server, some evs =>
             let (out, prev') := exchangeIP cfg server prev ref now ctx1 evs
             return ((), fmtOutcome cfg filt out prev')
           | _, _ => return ((), "bad-op")
         | .scion =>
-          if rest.length ≠ 14 then return ((), "bad-op")
+          if rest.length ≠ 15 then return ((), "bad-op")
           match (kvs rest ["ria", "rhost", "lia", "lhost"]).bind (·.mapM (·.toNat?)),
                 (kv? rest "key").bind parseBool?, parseEvs? parseEvSCION? ev with
           | some [ria, rhost, lia, lhost], some key, some evs =>
             let (out, prev') := exchangeSCION cfg ⟨ria, rhost, lia, lhost, key⟩ prev ref now ctx1 evs
             return ((), fmtOutcome cfg filt out prev')
           | _, _, _ => return ((), "bad-op")
-      | _, _, _, _, _, _, _, _ => return ((), "bad-op")
+      | _, _, _, _, _, _, _, _, _ => return ((), "bad-op")
     | _ => return ((), "bad-op")
   | ["cli.wrap", il, att] =>
     match (kv? [il] "il").bind parseBool?, (kv? [att] "att").bind (fun s => (s.splitOn ",").mapM parseAttempt?) with
